@@ -130,10 +130,11 @@ if ok and meta.get("confirmed") and ("--skip-suite" in args or "--skip-demo" in 
 elif ok and meta.get("confirmed"):
     dst = os.path.join("/verif/seeded", name)
     os.makedirs(dst, exist_ok=True)
-    shutil.copy(patch, os.path.join(dst, "patch.diff"))
-    shutil.copy(demo, os.path.join(dst, "zz_demo_test.go"))
+    if os.path.abspath(src) != os.path.abspath(dst):
+        shutil.copy(patch, os.path.join(dst, "patch.diff"))
+        shutil.copy(demo, os.path.join(dst, "zz_demo_test.go"))
     notes = os.path.join(src, "NOTES.md")
-    if os.path.exists(notes):
+    if os.path.exists(notes) and os.path.abspath(src) != os.path.abspath(dst):
         shutil.copy(notes, os.path.join(dst, "NOTES.md"))
     old = {}
     mp = os.path.join(dst, "meta.json")
@@ -141,6 +142,11 @@ elif ok and meta.get("confirmed"):
         old = json.load(open(mp))
         old.setdefault("detected_by", {}).update(meta["detected_by"])
         meta["detected_by"] = old["detected_by"]
+        for k, v in old.items():  # annotations written by hand (breaks, wave, initially_missed, rebased_onto, ...)
+            if k not in meta:
+                meta[k] = v
+            elif k == "ran" and old.get("rebased_onto"):
+                meta["ran_before_rebase"] = old.get("ran_before_rebase", v)
     json.dump(meta, open(mp, "w"), indent=1)
     print("kept in", dst)
 else:
